@@ -34,7 +34,7 @@ ASSUMPTIONS = [
 ]
 MIN_EVAL = {
     "quick": {"pwg_on_arc": 2000, "pwg_outside_arc": 2000, "pwg_off_plane": 2000, "gca_count": 4000, "gca_position": 1500, "extreme_lat": 3000, "symmetry": 5000},
-    "thorough": {"pwg_on_arc": 60000, "pwg_outside_arc": 60000, "pwg_off_plane": 60000, "gca_count": 100000, "gca_position": 40000, "extreme_lat": 80000, "symmetry": 250000},
+    "thorough": {"pwg_on_arc": 400000, "pwg_outside_arc": 400000, "pwg_off_plane": 400000, "gca_count": 700000, "gca_position": 250000, "extreme_lat": 600000, "symmetry": 1000000},
 }
 
 MARGIN = 2e-6
@@ -42,7 +42,7 @@ PLACEMENTS = ["generic", "through_pole", "endpoint_pole", "meridian", "meridian_
 
 
 def cases(tier, seed):
-    n = 160 if tier == "quick" else 4000
+    n = 160 if tier == "quick" else 30000
     for i in range(n):
         yield {"chunk": i, "seed": seed, "n": 40}
 
